@@ -72,9 +72,13 @@ Named ==
      [x |-> <<115,117,98,115,116,114,105,110,103,40,39,97,98,39,44,45,57,57,57,57,57,57,57,57,57,57,57,57,57,57,57,57,57,57,57,57,44,57,57,57,57,57,57,57,57,57,57,57,57,57,57,57,57,57,57,57,57,57,41>>, allow |-> "any", d |-> 1] >>
 
 vars == cvars
-DeepFamilies == {"parens", "deeppred", "minus", "args", "filters", "preds", "steps", "ors", "unions"}
+\* nesting families (recursion depth grows with n) get every deep size; the flat ones (linear work per
+\* repetition, about 0.1 ms each) only sizes whose linear cost stays far below the 5 s limit of a call
+NestingFamilies == {"parens", "deeppred", "minus", "args", "filters", "parenpath"}
+FlatFamilies == {"preds", "steps", "ors", "unions"}
 Inputs == { [fam |-> f, n |-> n, allow |-> "any"] : f \in FamilyNames, n \in Sizes }
-          \cup { [fam |-> f, n |-> n, allow |-> "any"] : f \in DeepFamilies, n \in DeepSizes }
+          \cup { [fam |-> f, n |-> n, allow |-> "any"] : f \in NestingFamilies, n \in DeepSizes }
+          \cup { [fam |-> f, n |-> n, allow |-> "any"] : f \in FlatFamilies, n \in {m \in DeepSizes : m <= 3000} }
           \cup { [fam |-> "named", n |-> k, allow |-> Named[k].allow] : k \in 1..Len(Named) }
 Next == (\E i \in Inputs : Call(i)) \/ (\E e \in BOOLEAN : Return(e)) \/ Error
 Spec == CInit /\ [][Next]_vars
